@@ -88,6 +88,9 @@ func resolveQueue0(w *World, c *simCtx) queueAnchors {
 	}
 	// constructor: function storing a makeslice into buf of a fresh queue
 	for _, fn := range libFuncs(w) {
+		if !allocsType(fn, c.a.QueueT) {
+			continue
+		}
 		paths, err := w.Paths(fn)
 		if err != nil {
 			continue
@@ -95,7 +98,7 @@ func resolveQueue0(w *World, c *simCtx) queueAnchors {
 		for _, p := range paths {
 			var mk *T
 			for _, e := range p.Events {
-				if e.Kind == "store" && e.LV.Op == "sel" && e.LV.A[0].Op == "new" && typeName(e.LV.A[0].Ty) == "*"+c.a.QueueT.Obj().Name() {
+				if e.Kind == "store" && e.LV.Op == "sel" && e.LV.A[0].Op == "new" && typeName(e.LV.A[0].Ty) == "*"+c.a.QueueT.Obj().Name() && e.Instr.Parent() == fn {
 					if e.LV.S == q.buf && e.Val.Op == "makeslice" {
 						mk = e.Val
 						q.ctor = fn
@@ -222,7 +225,7 @@ func ruleModQueue(w *World, r *RuleResult) {
 	}
 	d.add(!w.unstable[qn+"."+q.size], "size-write-once", w.Pos(q.ctor.Pos()), "size stored only in the constructor", "queue capacity field is modified after construction")
 	d.add(!w.unstable[qn+"."+q.buf], "buffer-write-once", w.Pos(q.ctor.Pos()), "buffer allocated only in the constructor with make(_, size)", "queue buffer is replaced after construction")
-	for _, fn := range libFuncs(w) {
+	for _, fn := range libRoots(w) {
 		paths, err := w.Paths(fn)
 		if err != nil {
 			continue
@@ -271,7 +274,7 @@ func ruleCycleCap(w *World, r *RuleResult) {
 		return
 	}
 	d := newDedup(r)
-	for _, fn := range libFuncs(w) {
+	for _, fn := range libRoots(w) {
 		paths, err := w.Paths(fn)
 		if err != nil {
 			continue
@@ -320,7 +323,7 @@ type stateStore struct {
 
 func stateStores(w *World, c *simCtx) []stateStore {
 	var out []stateStore
-	for _, fn := range libFuncs(w) {
+	for _, fn := range libRoots(w) {
 		paths, err := w.Paths(fn)
 		if err != nil {
 			continue
@@ -422,7 +425,7 @@ func rulePairAlive(w *World, r *RuleResult) {
 		}
 	}
 	// converse: every living-count change is next to a state change
-	for _, fn := range libFuncs(w) {
+	for _, fn := range libRoots(w) {
 		paths, _ := w.Paths(fn)
 		for _, p := range paths {
 			deltas, _ := c.livingDelta(p)
@@ -477,7 +480,7 @@ func ruleDeathReport(w *World, r *RuleResult) {
 		d.add(found, s.fn.Name()+"/terminate-report", c.posOf(s.e), "warrior-terminate report on the same path, same warrior", "warrior marked dead without a warrior-terminate report for it on the same path")
 	}
 	// converse: every terminate report sits on a path that marks that warrior dead
-	for _, fn := range libFuncs(w) {
+	for _, fn := range libRoots(w) {
 		paths, _ := w.Paths(fn)
 		for _, p := range paths {
 			for i := range p.Events {
@@ -526,7 +529,7 @@ func ruleSchedLoop(w *World, r *RuleResult) {
 		}
 	}
 	if cursor != "" {
-		for _, f2 := range libFuncs(w) {
+		for _, f2 := range libRoots(w) {
 			ps, _ := w.Paths(f2)
 			for _, p := range ps {
 				for i := range p.Events {
@@ -620,12 +623,23 @@ func ruleSchedLoop(w *World, r *RuleResult) {
 		multi := hasCond(p, func(a *T, v bool) bool {
 			return a.Op == "lt" && v && a.A[0].IsConstVal(1) && c.isRecvField(a.A[1], c.a.CountField)
 		})
+		// the living count as it stands at the return: its value on entry plus delta
+		delta := int64(0)
+		for _, e := range p.Events {
+			if e.Kind == "store" && c.isRecvField(e.LV, c.a.LivingField) {
+				delta = linearOf(e.Val).Const
+			}
+		}
 		one := hasCond(p, func(a *T, v bool) bool {
-			if a.Op == "eq" && v && a.A[1].IsConstVal(1) {
+			if a.Op == "eq" && v && a.A[1].IsConst() {
 				l := linearOf(a.A[0])
-				for _, at := range l.Atom {
-					if c.isRecvField(at, c.a.LivingField) {
-						return true
+				if len(l.Atom) != 1 {
+					return false
+				}
+				for k, at := range l.Atom {
+					if c.isRecvField(at, c.a.LivingField) && l.Coef[k] == 1 {
+						// entry value == k - const, so the current value is k - const + delta
+						return a.A[1].C-l.Const+delta == 1
 					}
 				}
 			}
@@ -917,7 +931,7 @@ func ruleAPIIndex(w *World, r *RuleResult) {
 		t = stripConv(t)
 		return c.isRecvField(t, c.a.CountField) || (t.Op == "len" && c.isRecvField(t.A[0], c.a.WarriorsField))
 	}
-	for _, fn := range libFuncs(w) {
+	for _, fn := range libRoots(w) {
 		paths, err := w.Paths(fn)
 		if err != nil {
 			continue
@@ -979,7 +993,7 @@ func ruleAPIIndex(w *World, r *RuleResult) {
 		}
 	}
 	// count == len(list): paired update
-	for _, fn := range libFuncs(w) {
+	for _, fn := range libRoots(w) {
 		paths, _ := w.Paths(fn)
 		for _, p := range paths {
 			cnt, app := 0, 0
@@ -1060,7 +1074,9 @@ func ruleAPINil(w *World, r *RuleResult) {
 	}
 	var fns []*ssa.Function
 	for f := range reach {
-		fns = append(fns, f)
+		if !w.covered(f) { // a helper expanded in place is judged inside its callers
+			fns = append(fns, f)
+		}
 	}
 	sort.Slice(fns, func(i, j int) bool { return fns[i].String() < fns[j].String() })
 	for _, fn := range fns {
@@ -1159,7 +1175,7 @@ func ruleResetCover(w *World, r *RuleResult) {
 	// constant-only fields
 	constOnly := func(tn, f string) (bool, string) {
 		vals := map[string]bool{}
-		for _, fn := range libFuncs(w) {
+		for _, fn := range libRoots(w) {
 			paths, _ := w.Paths(fn)
 			for _, p := range paths {
 				for _, e := range p.Events {
@@ -1546,7 +1562,9 @@ func ruleRefusePure(w *World, r *RuleResult) {
 	d := newDedup(r)
 	var fns []*ssa.Function
 	for f := range reach {
-		fns = append(fns, f)
+		if !w.covered(f) { // a helper expanded in place is judged inside its callers
+			fns = append(fns, f)
+		}
 	}
 	sort.Slice(fns, func(i, j int) bool { return fns[i].String() < fns[j].String() })
 	for _, fn := range fns {
